@@ -175,18 +175,34 @@ func Normalize(dir, goarch string, tags []string) (map[string][]byte, []string) 
 		return nil, nil
 	}
 	n := &normalizer{dir: dir, goarch: goarch, tags: tags, overlay: map[string][]byte{}}
-	for round := 0; round < 10; round++ {
-		if err := n.load(); err != nil {
-			n.notes = append(n.notes, fmt.Sprintf("normalisation stopped: %v", err))
-			if round == 0 {
-				return nil, n.notes
+	loaded := false
+	for round := 0; round < 32; round++ {
+		if !loaded {
+			if err := n.load(); err != nil {
+				n.notes = append(n.notes, fmt.Sprintf("normalisation stopped: %v", err))
+				if round == 0 {
+					return nil, n.notes
+				}
+				break
 			}
-			break
+		}
+		loaded = false
+		if os.Getenv("MQTTCHECK_DEBUG_NORM") != "" {
+			fmt.Fprintf(os.Stderr, "normalise: round %d\n", round)
 		}
 		n.classify()
 		changed := n.inlineRound()
 		if !changed {
 			changed = n.methodValueRound()
+		}
+		if !changed {
+			changed = n.funcVarRound()
+		}
+		if !changed {
+			changed = n.constIfRound()
+		}
+		if !changed {
+			changed = n.tableRound()
 		}
 		if !changed {
 			changed = n.cleanupRound()
@@ -219,6 +235,7 @@ func Normalize(dir, goarch string, tags []string) (map[string][]byte, []string) 
 			n.notes = append(n.notes, fmt.Sprintf("normalisation round %d rolled back (does not type-check): %v", round, err))
 			break
 		}
+		loaded = true // the verified state is the next round's input
 	}
 	if len(n.overlay) == 0 {
 		return nil, n.notes
@@ -1498,6 +1515,7 @@ func (n *normalizer) sroaRound() bool {
 		}
 		// every use: a field selection (on the final holder or a pointer), a member definition, or `_ = x`
 		okAll := true
+		sroaWhy := ""
 		var sels []*ast.SelectorExpr
 		var dropStmts []ast.Stmt
 		for a, r := range role {
@@ -1505,6 +1523,7 @@ func (n *normalizer) sroaRound() bool {
 				ds := defStmt[a]
 				if ds == nil || !isListParent(stmtParent[ds], ds) {
 					okAll = false
+					sroaWhy += fmt.Sprintf(" #%d", 1)
 					break
 				}
 				dropStmts = append(dropStmts, ds)
@@ -1515,6 +1534,7 @@ func (n *normalizer) sroaRound() bool {
 					sel := n.info.Selections[p]
 					if p.X != ast.Expr(u.id) || sel == nil || sel.Kind() != types.FieldVal || len(sel.Index()) != 1 || (r == "val" && a != final) {
 						okAll = false
+						sroaWhy += fmt.Sprintf(" #%d", 2)
 					} else {
 						sels = append(sels, p)
 					}
@@ -1530,6 +1550,7 @@ func (n *normalizer) sroaRound() bool {
 					}
 					if !okDef {
 						okAll = false
+						sroaWhy += fmt.Sprintf(" #%d", 3)
 					}
 				case *ast.ParenExpr:
 					// (&(x)) / (x): accepted only as part of a member definition
@@ -1541,6 +1562,7 @@ func (n *normalizer) sroaRound() bool {
 					}
 					if !okDef {
 						okAll = false
+						sroaWhy += fmt.Sprintf(" #%d", 4)
 					}
 				case *ast.AssignStmt:
 					if p == defStmt[a] && len(p.Lhs) == 1 && p.Lhs[0] == ast.Expr(u.id) {
@@ -1548,6 +1570,7 @@ func (n *normalizer) sroaRound() bool {
 					}
 					if len(p.Lhs) != 1 || len(p.Rhs) != 1 || p.Rhs[0] != ast.Expr(u.id) {
 						okAll = false
+						sroaWhy += fmt.Sprintf(" #%d", 5)
 						break
 					}
 					l, isId := p.Lhs[0].(*ast.Ident)
@@ -1558,6 +1581,7 @@ func (n *normalizer) sroaRound() bool {
 					case isId && p.Tok == token.ASSIGN && role[n.info.Uses[l]] != "" && n.varAssign[n.info.Uses[l]] == p:
 					default:
 						okAll = false
+						sroaWhy += fmt.Sprintf(" #%d", 6)
 					}
 				case *ast.ValueSpec:
 					okDef := false
@@ -1568,13 +1592,18 @@ func (n *normalizer) sroaRound() bool {
 					}
 					if !okDef {
 						okAll = false
+						sroaWhy += fmt.Sprintf(" #%d", 7)
 					}
 				default:
 					okAll = false
+					sroaWhy += fmt.Sprintf(" #8:%T@%d", u.parent, n.fset.Position(u.id.Pos()).Line)
 				}
 			}
 		}
 		if !okAll || len(sels) == 0 {
+			if os.Getenv("MQTTCHECK_DEBUG_NORM") != "" {
+				fmt.Fprintf(os.Stderr, "normalise: struct local %s at %s not split (%s)\n", obj.Name(), n.fset.Position(obj.Pos()), sroaWhy)
+			}
 			continue
 		}
 		ds := defStmt[obj]
@@ -1841,6 +1870,7 @@ func forwardingLit(lit *ast.FuncLit) bool {
 func (n *normalizer) cleanupRound() bool {
 	type useCtx struct{ parent, grand ast.Node }
 	uses := map[types.Object][]useCtx{}
+	typedSpec := map[types.Object]*ast.ValueSpec{}
 	for _, f := range n.pp.Syntax {
 		var stack []ast.Node
 		ast.Inspect(f, func(x ast.Node) bool {
@@ -1849,6 +1879,11 @@ func (n *normalizer) cleanupRound() bool {
 				return true
 			}
 			stack = append(stack, x)
+			if vs, ok := x.(*ast.ValueSpec); ok && vs.Type != nil && len(vs.Names) == 1 && len(vs.Values) == 1 {
+				if obj := n.info.Defs[vs.Names[0]]; obj != nil {
+					typedSpec[obj] = vs
+				}
+			}
 			if id, ok := x.(*ast.Ident); ok {
 				if obj := n.info.Uses[id]; obj != nil {
 					var u useCtx
@@ -1907,6 +1942,35 @@ func (n *normalizer) cleanupRound() bool {
 		n.addEdit(filename, n.off(lit.Pos()), n.off(lit.End()), "nil")
 		n.addEdit(filename, n.off(lit.End()), n.off(lit.End()), "\n"+n.lineDirective(filename, n.fset.Position(lit.End()).Line))
 		n.notes = append(n.notes, fmt.Sprintf("dropped function literal held by %s (all its calls inlined)", obj.Name()))
+		changed = true
+	}
+	// `var h F = f` (f a named function or a method expression) with no use left but `_ = h`
+	for obj, vs := range typedSpec {
+		if _, isVar := obj.(*types.Var); !isVar || obj.Parent() == n.pp.Types.Scope() || !dead(obj, 0) {
+			continue
+		}
+		e := ast.Unparen(vs.Values[0])
+		isFn := false
+		switch y := e.(type) {
+		case *ast.Ident:
+			_, isFn = n.info.Uses[y].(*types.Func)
+		case *ast.SelectorExpr:
+			if sel := n.info.Selections[y]; sel != nil && sel.Kind() == types.MethodExpr {
+				isFn = true
+			}
+		}
+		if !isFn {
+			continue
+		}
+		if _, isSig := obj.Type().Underlying().(*types.Signature); !isSig {
+			continue
+		}
+		filename := n.fset.File(e.Pos()).Name()
+		if n.overlaps(filename, n.off(e.Pos()), n.off(e.End())) {
+			continue
+		}
+		n.addEdit(filename, n.off(e.Pos()), n.off(e.End()), "nil")
+		n.notes = append(n.notes, fmt.Sprintf("dropped function value held by %s (all its calls made directly)", obj.Name()))
 		changed = true
 	}
 	return changed
@@ -2854,6 +2918,14 @@ func (n *normalizer) deleteRound() bool {
 	deleted := map[*ast.File][]rng{}
 	for fn := range n.newFns {
 		if used[fn] {
+			if os.Getenv("MQTTCHECK_DEBUG_NORM") != "" {
+				for id, obj := range n.info.Uses {
+					if obj == types.Object(fn) {
+						fmt.Fprintf(os.Stderr, "normalise: helper %s still referenced at %s\n", funcKeyOf(fn), n.fset.Position(id.Pos()))
+						break
+					}
+				}
+			}
 			continue
 		}
 		fd := n.decls[fn]
@@ -2869,6 +2941,9 @@ func (n *normalizer) deleteRound() bool {
 		n.addEdit(filename, n.off(start), n.off(fd.End()), "\n"+n.lineDirective(filename, n.fset.Position(fd.End()).Line))
 		n.notes = append(n.notes, fmt.Sprintf("removed unreferenced helper %s", funcKeyOf(fn)))
 		deleted[f] = append(deleted[f], rng{start, fd.End()})
+		changed = true
+	}
+	if n.deleteTables(used) {
 		changed = true
 	}
 	// imports that lose their last use
